@@ -69,7 +69,7 @@ func (o *Oracle) judgeAuth(e *Exchange) {
 	if !ok || !strings.EqualFold(e.Host, AuthHost) {
 		return
 	}
-	slugPrefix := "/" + o.w.Cfg.Slug + "/"
+	slugPrefix := "/" + o.w.authSlug() + "/"
 	if !strings.HasPrefix(path, slugPrefix) {
 		return
 	}
